@@ -220,7 +220,8 @@ def show(v, limit=160):
 class Cfg:
     """Comparison configuration.
 
-    numbers: 'exact' (kind class, ==, sign of zero) or 'close' (relative
+    numbers: 'exact' (kind class, ==, sign of zero), 'ulps' (same kind class,
+    integers exactly, floats within relative `rtol`) or 'close' (relative
     tolerance `rtol`, kinds int/float interchangeable).
     sym_rtol: relative tolerance for symbolic / register arguments.
     """
@@ -303,6 +304,15 @@ def diff_values(a, b, path, cfg, out):
         if cfg.numbers == "exact":
             if not _num_equal_exact(a, b):
                 out.append((path, "number:%s!=%s" % (ka, kb) if ka != kb else "number:%s" % ka, show(a), show(b)))
+        elif cfg.numbers == "ulps":
+            # same kind; integers and booleans exactly, floats/complex within rtol
+            if ka != kb:
+                out.append((path, "number:%s!=%s" % (ka, kb), show(a), show(b)))
+            elif ka in ("int", "bool"):
+                if int(a) != int(b):
+                    out.append((path, "number:%s" % ka, show(a), show(b)))
+            elif not _num_close(a, b, cfg.rtol):
+                out.append((path, "number-ulps:%s" % ka, show(a), show(b)))
         else:
             if not _num_close(a, b, cfg.rtol):
                 out.append((path, "number-close:%s/%s" % (ka, kb), show(a), show(b)))
